@@ -8,7 +8,9 @@ use std::io::{Read, Write};
 use std::net::TcpListener;
 use std::path::PathBuf;
 use std::sync::{Arc, Mutex};
-use taskchampion::server::verif::{new_store, Store, VerifCloud};
+use taskchampion::server::verif::{arm_failpoint, disarm_failpoint, new_store, Fault, Store, VerifCloud};
+use taskchampion::storage::inmemory::InMemoryStorage;
+use taskchampion::{Operation, Replica};
 use taskchampion::server::{AddVersionResult, GetVersionResult};
 use taskchampion::{Server, ServerConfig};
 use uuid::Uuid;
@@ -170,6 +172,10 @@ pub struct BackendRun {
     sealed_done: bool,
     /// protocol lines to append to ops.txt after the current one
     pub extra_ops: Vec<String>,
+    /// fault armed for the next add_version / add_snapshot / sync of a handle: (handle, spec)
+    pub armed: Option<(usize, String)>,
+    /// replicas of the replica-level rounds (`EP` lines), created on first use
+    pub replicas: Vec<Replica<InMemoryStorage>>,
 }
 
 fn git(dir: &std::path::Path, args: &[&str]) {
@@ -248,6 +254,8 @@ impl BackendRun {
             sealed_check: false,
             sealed_done: false,
             extra_ops: Vec::new(),
+            armed: None,
+            replicas: Vec::new(),
         };
         match kind {
             Kind::Local | Kind::GitLocal => {
@@ -321,6 +329,83 @@ impl BackendRun {
         self.handles[i] = Some(h);
     }
 
+    /// arm the fault `spec` for the next call on handle `h`
+    fn arm(&mut self, h: usize) -> bool {
+        let Some((ah, spec)) = self.armed.clone() else { return false };
+        if ah != h {
+            return false;
+        }
+        self.armed = None;
+        if let Some(st) = &self.store {
+            let (kind, m) = match spec.split_once(':') {
+                Some(("before", m)) => (Fault::Before, m.parse::<usize>().unwrap_or(1)),
+                Some(("after", m)) => (Fault::After, m.parse::<usize>().unwrap_or(1)),
+                _ => return false,
+            };
+            let mut s = st.lock().unwrap();
+            let c = s.counts[h];
+            s.faults[h] = Some((c + m, kind));
+        } else {
+            arm_failpoint(&spec, 1);
+        }
+        true
+    }
+
+    fn disarm(&mut self, h: usize) {
+        if let Some(st) = &self.store {
+            st.lock().unwrap().faults[h] = None;
+        }
+        disarm_failpoint();
+    }
+
+    /// the process that owned handle `h` stops: the handle is dropped as it is and opened again
+    fn crash(&mut self, h: usize) {
+        self.handles[h] = None;
+        self.open(h);
+        self.stat("crash");
+    }
+
+    /// after an interrupted add_version(parent, payload): what every handle now says the child of
+    /// `parent` is
+    fn resolve_av(&mut self, parent: Uuid, payload: &[u8]) -> String {
+        let known_child = self.accepted.len();
+        let mut seen: Vec<Option<(Uuid, Vec<u8>)>> = Vec::new();
+        for i in 0..self.handles.len() {
+            let r = self.call(i, |s, rt| rt.block_on(s.get_child_version(parent)));
+            match r {
+                Ok(GetVersionResult::Version { version_id, history_segment, .. }) => seen.push(Some((version_id, history_segment))),
+                Ok(GetVersionResult::NoSuchVersion) => seen.push(None),
+                Err(e) => return format!("resolve-error:{}", e).replace(' ', "_"),
+            }
+        }
+        let _ = known_child;
+        let first = seen[0].clone();
+        if seen.iter().any(|x| *x != first) {
+            return "split".into();
+        }
+        match first {
+            None => "absent".into(),
+            Some((id, bytes)) => {
+                if self.accepted.contains(&id) {
+                    // the parent already had a child: the interrupted request added nothing
+                    "absent".into()
+                } else if bytes == payload {
+                    self.accepted.push(id);
+                    "accepted".into()
+                } else {
+                    "corrupt".into()
+                }
+            }
+        }
+    }
+
+    fn replica(&mut self, r: usize) -> &mut Replica<InMemoryStorage> {
+        while self.replicas.len() <= r {
+            self.replicas.push(Replica::new(InMemoryStorage::new()));
+        }
+        &mut self.replicas[r]
+    }
+
     fn stat(&mut self, k: &str) {
         *self.stats.entry(k.to_string()).or_insert(0) += 1;
     }
@@ -365,12 +450,91 @@ impl BackendRun {
         match toks.as_slice() {
             ["H", _] => (line.to_string(), String::new()),
             ["BACKEND", _] => (line.to_string(), String::new()),
+            ["FP", h, spec] => {
+                self.armed = Some((h.parse().unwrap(), spec.to_string()));
+                (line.to_string(), String::new())
+            }
+            ["EP", r, spec, k, ..] => {
+                // replica-level round: replica r creates task k and synchronizes through its handle with
+                // the fault armed; a failed sync is followed by a process stop of that handle
+                let r: usize = r.parse().unwrap();
+                let k: u128 = k.parse().unwrap();
+                let h = r % self.handles.len();
+                let uuid = Uuid::from_u128(0x5000 + k);
+                let ops = vec![
+                    Operation::Create { uuid },
+                    Operation::Update { uuid, property: "description".into(), old_value: None, value: Some(format!("t{}", k)), timestamp: chrono::DateTime::from_timestamp(1_700_000_000 + k as i64, 0).unwrap() },
+                ];
+                block_on(self.replica(r).commit_operations(ops)).expect("commit");
+                self.armed = Some((h, spec.to_string()));
+                self.arm(h);
+                taskchampion::server::verif::set_rand(Some(255));
+                let mut srv = self.handles[h].take().expect("handle open");
+                let mut rep = std::mem::replace(&mut self.replicas[r], Replica::new(InMemoryStorage::new()));
+                let res = self.rt.block_on(rep.sync(&mut srv, true));
+                self.replicas[r] = rep;
+                self.handles[h] = Some(srv);
+                self.disarm(h);
+                self.stat("ep");
+                let out = match res {
+                    Ok(()) => "ok",
+                    Err(_) => {
+                        self.crash(h);
+                        self.stat("ep.failed");
+                        "err"
+                    }
+                };
+                (format!("EP {} {} {} -> {}", r, spec, k, out), format!("sync {}", out))
+            }
+            ["EPEND"] => {
+                // everybody synchronizes (twice round-robin), then every replica's tasks are printed
+                let n = self.replicas.len().max(2);
+                let mut out = Vec::new();
+                for round in 0..2 {
+                    for r in 0..n {
+                        let h = r % self.handles.len();
+                        let _ = self.replica(r);
+                        let mut srv = self.handles[h].take().expect("handle open");
+                        let mut rep = std::mem::replace(&mut self.replicas[r], Replica::new(InMemoryStorage::new()));
+                        let res = self.rt.block_on(rep.sync(&mut srv, true));
+                        self.replicas[r] = rep;
+                        self.handles[h] = Some(srv);
+                        if let Err(e) = res {
+                            out.push(format!("err: final sync round {} replica {}: {}", round, r, e));
+                        }
+                    }
+                }
+                for r in 0..n {
+                    let tasks = block_on(self.replica(r).all_task_data()).expect("all_task_data");
+                    let mut ts: Vec<String> = tasks
+                        .iter()
+                        .map(|(u, t)| format!("{}:{}", u.as_u128() - 0x5000, t.get("description").unwrap_or("?")))
+                        .collect();
+                    ts.sort();
+                    out.push(format!("rep {} [{}]", r, ts.join(",")));
+                }
+                (line.to_string(), out.join("\n"))
+            }
             ["AV", h, p, b] => {
                 let h: usize = h.parse().unwrap();
                 let parent = self.actual(p);
                 let payload = if *b == "." { vec![] } else { unhex(b).unwrap() };
+                let armed = self.arm(h);
+                let pl2 = payload.clone();
                 let r = self.call(h, |s, rt| rt.block_on(s.add_version(parent, payload)));
+                self.disarm(h);
                 self.stat("add_version");
+                if armed {
+                    if let Err(e) = &r {
+                        self.stat("add_version.interrupted");
+                        let _ = e;
+                        self.crash(h);
+                        let res = self.resolve_av(parent, &pl2);
+                        self.stat(&format!("resolved.{}", res.split(':').next().unwrap()));
+                        let out = if res == "accepted" { format!("interrupted accepted v{}", self.accepted.len()) } else { format!("interrupted {}", res) };
+                        return (format!("AV {} {} {} !{}", h, p, b, res), out);
+                    }
+                }
                 let out = match r {
                     Ok((AddVersionResult::Ok(id), _)) => {
                         self.accepted.push(id);
@@ -428,8 +592,28 @@ impl BackendRun {
                 let h: usize = h.parse().unwrap();
                 let vid = self.actual(v);
                 let payload = if *b == "." { vec![] } else { unhex(b).unwrap() };
+                let armed = self.arm(h);
+                let pl2 = payload.clone();
                 let r = self.call(h, |s, rt| rt.block_on(s.add_snapshot(vid, payload)));
+                self.disarm(h);
                 self.stat("add_snapshot");
+                if armed && r.is_err() {
+                    self.stat("add_snapshot.interrupted");
+                    self.crash(h);
+                    // stored or not: whatever get_snapshot now returns, from every handle alike
+                    let mut seen = Vec::new();
+                    for i in 0..self.handles.len() {
+                        seen.push(self.call(i, |s, rt| rt.block_on(s.get_snapshot())).ok().flatten());
+                    }
+                    let res = if seen.iter().any(|x| *x != seen[0]) {
+                        "split"
+                    } else if seen[0] == Some((vid, pl2)) {
+                        "stored"
+                    } else {
+                        "absent"
+                    };
+                    return (format!("AS {} {} {} !{}", h, v, b, res), format!("interrupted {}", res));
+                }
                 (line.to_string(), if r.is_ok() { "ok".into() } else { format!("err:{:?}", r.err()) })
             }
             ["GS", h, ..] => {
@@ -452,6 +636,20 @@ impl BackendRun {
             }
             _ => (line.to_string(), "bad-op".into()),
         }
+    }
+}
+
+pub fn fault_specs(kind: Kind) -> Vec<String> {
+    match kind {
+        Kind::Local => vec!["local.add_version.between-insert-and-latest".into(), "local.add_version.before-commit".into()],
+        Kind::GitLocal | Kind::GitRemote => vec![
+            "git.add_version.after-version-file".into(),
+            "git.add_version.after-meta".into(),
+            "git.add_version.after-commit".into(),
+        ],
+        // add_version makes 3-4 object-store requests, a whole sync a few more
+        Kind::Cloud => [1, 2, 3, 4, 1, 2, 3, 4, 5, 6, 8].iter().flat_map(|m| vec![format!("before:{}", m), format!("after:{}", m)]).collect(),
+        Kind::Http => vec![],
     }
 }
 
